@@ -13,6 +13,8 @@ def switch_edges(body, bb):
     for tg, (vals, oth) in out.items():
         if body.blocks[tg]["term"]["k"] == "unreachable":
             continue
+        if (bb, tg) in getattr(body, "dead_edges", ()):
+            continue   # infeasible under the hypothesis this body was restricted with
         res.append((tg, vals, oth))
     return res
 
